@@ -236,5 +236,8 @@ FIFOGrant == \A i, j \in 1..Len(popSeq) : i < j => Idx(pushSeq, popSeq[i]) < Idx
 \* terminal form of "no lost waiter" / "lock not leaked" (TLC's deadlock check covers the blocked form)
 Terminal == AllDone => /\ ~locked /\ queue = <<>>
                        /\ \A a \in Att : st[a] \in {0, 3, 4, 5}
+\* a waiter obtained by pop_front has not been completed by anybody else: the "already completed by stop" branch of
+\* resume_ (which releases the lock again) is never taken, because stop() completes only a waiter it removed itself
+PoppedNotCompleted == \A t \in Threads : (pc[t] = "c.completed" /\ tcFail[t] = "v2.pop") => "completed" \notin cs[cur[t]]
 Terminates == <>AllDone
 =============================================================================
